@@ -120,14 +120,14 @@ type Flow struct {
 	memo    map[*types.Func]Facts
 
 	// virtual inlining of small same-package helpers (extract-method robustness)
-	NoInline  bool
-	OnInline  func(callee *FuncBody, param *types.Var, arg ast.Expr) // lets a rule extend alias sets
-	entry     Facts
-	root      *Flow
-	stack     []*types.Func
-	inlineRet map[*ast.CallExpr]string // helper call -> label of the call whose error it returns on every path
+	NoInline   bool
+	OnInline   func(callee *FuncBody, param *types.Var, arg ast.Expr) // lets a rule extend alias sets
+	entry      Facts
+	root       *Flow
+	stack      []*types.Func
+	inlineRet  map[*ast.CallExpr]string   // helper call -> label of the call whose error it returns on every path
 	inlineRets map[*ast.CallExpr][]string // per result position
-	Inlined   map[*types.Func]bool
+	Inlined    map[*types.Func]bool
 }
 
 func NewFlow(p *Prog, fb *FuncBody, label Labeler) *Flow {
